@@ -14,7 +14,7 @@ type VerifOverride struct {
 	ForceALPN         *string
 	HRRCookie         []byte
 	LegacyVersionOnly bool
-	Canary            int  // 1 = suppress, 2 = force
+	Canary            int  // 1 = suppress, 2 = force, 3 = force the other sentinel
 	ReadClientEE      bool // read a client EncryptedExtensions before the client's Finished
 	ClientEE          []byte
 	Emit              func(ev string, data []byte)
@@ -93,6 +93,12 @@ func verifCanary(hs *serverHandshakeState) {
 			copy(hs.hello.random[24:], downgradeCanaryTLS12)
 		} else {
 			copy(hs.hello.random[24:], downgradeCanaryTLS11)
+		}
+	case 3: // the sentinel that belongs to the other version class
+		if hs.c.vers == VersionTLS12 {
+			copy(hs.hello.random[24:], downgradeCanaryTLS11)
+		} else {
+			copy(hs.hello.random[24:], downgradeCanaryTLS12)
 		}
 	}
 }
